@@ -37,6 +37,13 @@ def build_harness():
     lock = os.path.join(HARNESS_DIR, "Cargo.lock")
     if not os.path.exists(lock):
         shutil.copy(os.path.join(REPO, "Cargo.lock"), lock)
+    # the harness depends on the repository by path; ABRA_REPO selects another checkout (background runs on a snapshot)
+    manifest = os.path.join(HARNESS_DIR, "Cargo.toml")
+    text = open(manifest).read()
+    want = re.sub(r'path = "[^"]*/(abra_core|utils)"', lambda m: 'path = "%s/%s"' % (REPO, m.group(1)), text)
+    if want != text:
+        with open(manifest, "w") as fh:
+            fh.write(want)
     env = dict(os.environ, CARGO_NET_OFFLINE="true")
     t0 = time.time()
     p = subprocess.run(["cargo", "build", "--release", "--offline", "-q"], cwd=HARNESS_DIR,
